@@ -1106,6 +1106,17 @@ def alt_dtypes(c):
     np.stack takes the common type of all of them (np.result_type, independent of the order), np.asarray([a, b, ...])
     promotes pairwise from the left (int16, uint16, float32 -> float64, but float32 in any other order).  Both are
     'what NumPy gives' for a multi-argument reduction."""
+    if c["form"] == "bin" and c["op"] == "pow" and c.get("second") == "scalar" and dtypes_of(c)[0] == "bool":
+        # NumPy disagrees with itself on a boolean array raised to the Python scalar 2: the operator (array ** 2) squares
+        # (np.square: int8), the function (np.power(array, 2)) promotes (int64); with any other exponent both give int64.
+        # Both are 'what NumPy gives'.
+        try:
+            with warnings.catch_warnings():
+                warnings.simplefilter("ignore")
+                with np.errstate(all="ignore"):
+                    return {(np.zeros((1,), dtype=bool) ** np.array(c["datas"][1], dtype=dtypes_of(c)[1]).reshape(()).item()).dtype}
+        except Exception:
+            return set()
     if c["form"] != "multi":
         return set()
     try:
